@@ -232,9 +232,11 @@ func receiveFromTransport(ctx context.Context, c *channel, done chan<- struct{})
 				// the receiver goroutine can stop.
 				if c.client {
 					state := e.State
-					if state.Step() < c.State().Step() {
-						// The server cannot move the session state backwards,
-						// so the session is not usable anymore.
+					if state.Step() < c.State().Step() || state == SessionStateEstablished {
+						// The server cannot move the session state backwards nor
+						// establish the session again: nothing is received anymore
+						// once this goroutine stops, so the session is not usable
+						// and should not be reported as established.
 						state = SessionStateFailed
 					}
 					c.setStateWLock(state)
